@@ -33,6 +33,9 @@ func (c *Ctx) Count(key string) { c.Dist[key]++ }
 type family struct {
 	gen  func(c *Ctx)
 	exec func(input val.V) val.V
+	// post (optional) rewrites the line to be written: families whose observation is folded into
+	// the model's input (e.g. an observed trace that the model checks for inclusion).
+	post func(input, obs val.V) (val.V, val.V)
 }
 
 var families = map[string]family{}
@@ -72,6 +75,9 @@ func main() {
 	n := 0
 	run := func(input val.V) {
 		obs := fam.exec(input)
+		if fam.post != nil {
+			input, obs = fam.post(input, obs)
+		}
 		w.WriteString(val.String(input))
 		w.WriteByte('\t')
 		w.WriteString(val.String(obs))
